@@ -277,10 +277,16 @@ def replay(path):
         rp = json.load(f)
     mod = load_monitor(rp['property'])
     vs = mod.replay(rp['case'])
-    if vs:
-        for key, msg in vs:
+    open_keys = {(k['property'], k['key']) for k in load_known().get('open', [])}
+    rc = 0
+    for key, msg in (vs or []):
+        if (rp['property'], key) in open_keys:
+            print('KNOWN-FINDING: property=%s %s: %s' % (rp['property'], key, msg))
+        else:
             print('VIOLATION property=%s replay=%s' % (rp['property'], path))
             print('  [%s] %s' % (key, msg))
-        return 1
+            rc = 1
+    if vs:
+        return rc
     print('replay of %s: no violation on this tree' % path)
     return 0
